@@ -92,6 +92,7 @@ OpenRetViol(e) ==
      \cup (IF crashed THEN {}
            ELSE IF o = "session"
                 THEN Check("C01", "honest-handshake-succeeds", ~e.err)
+                     \cup (IF Has(info, "retryLeg") THEN Check("C10", "handshake-payload-retried-until-answered", ~e.err) ELSE {})
                      \cup (IF e.err THEN {} ELSE
                            Check("C12", "session-confirms-exactly-the-proposal",
                                  /\ v.AuthenticationAlgorithm = x.authNum /\ v.IntegrityAlgorithm = x.integNum
